@@ -317,17 +317,26 @@ func (r *runner) runAll() {
 	containers := containerPool()
 
 	// F1: directive grammar x scalar pool (bounded-exhaustive); delimiters on a sub-pool
-	coqBudget := 2400
+	// quick tier: every value meets every third directive of the grammar (the residue moves with the
+	// seed and the value), thorough: all of them
+	coqBudget := 1500
+	step := 3
 	if thorough {
 		coqBudget = 12000
+		step = 1
 	}
 	total := 0
 	grammarDirectives(false, func(Directive) { total++ })
 	total *= len(scalars)
-	stride := total/coqBudget + 1
+	stride := total/step/coqBudget + 1
 	idx := 0
-	for _, v := range scalars {
+	for vi, v := range scalars {
+		di := 0
 		grammarDirectives(false, func(d Directive) {
+			di++
+			if (di+vi+int(r.cfg.Seed))%step != 0 {
+				return
+			}
 			idx++
 			r.one(v, sStr(d.String()), "grammar", idx%stride == 0)
 		})
@@ -338,13 +347,18 @@ func (r *runner) runAll() {
 		sub = scalars
 	}
 	idx = 0
+	sel := 0
 	for _, v := range sub {
 		grammarDirectives(true, func(d Directive) {
 			if !strings.ContainsAny(d.Flags, delimChars) {
 				return
 			}
 			idx++
-			r.one(v, sStr(d.String()), "grammar-delims", idx%(stride*4) == 0)
+			if !thorough && (idx+int(r.cfg.Seed))%6 != 0 {
+				return
+			}
+			sel++
+			r.one(v, sStr(d.String()), "grammar-delims", sel%(stride*4) == 0)
 		})
 	}
 
@@ -359,7 +373,7 @@ func (r *runner) runAll() {
 		if g.Chance(1, 5) {
 			v = containers[g.Intn(len(containers))]
 		}
-		r.one(v, sStr(randomDirectiveText(g)), "near-grammar", i < 500)
+		r.one(v, sStr(randomDirectiveText(g)), "near-grammar", i < 400)
 	}
 	// permutations of the flag sets with the same meaning
 	for i := 0; i < nJunk/3; i++ {
@@ -380,7 +394,7 @@ func (r *runner) runAll() {
 				for _, p := range []int{-1, 2} {
 					for _, l := range "ahspdxq" {
 						idx++
-						r.one(v, sStr(Directive{Flags: fl, Width: w, Prec: p, Letter: byte(l)}.String()), "container", idx%9 == 0)
+						r.one(v, sStr(Directive{Flags: fl, Width: w, Prec: p, Letter: byte(l)}.String()), "container", idx%23 == 0)
 					}
 				}
 			}
@@ -393,7 +407,7 @@ func (r *runner) runAll() {
 
 	// F4: per-type format maps x random values
 	nMaps := 20000
-	mapsCoq := 700
+	mapsCoq := 500
 	if thorough {
 		nMaps = 300000
 		mapsCoq = 4000
@@ -406,7 +420,7 @@ func (r *runner) runAll() {
 
 	// F5: seeded random scalars x random directives
 	nRand := 60000
-	randCoq := 900
+	randCoq := 600
 	if thorough {
 		nRand = 1500000
 		randCoq = 5000
